@@ -193,6 +193,8 @@ func TestC35(t *testing.T) {
 					case 0:
 						nd.NotifyLeave(cluster.FakeNode(f.name, f.ip, f.port, meta))
 					case 1:
+						// (a member that comes back may run another version than before)
+						f.pmax = []uint8{5, 5, 5, 4, 3, 2}[rng.Intn(6)]
 						join(f.name, f.ip, f.port, f.pmax)
 					default:
 						leaveIntent(f.name)
@@ -200,33 +202,46 @@ func TestC35(t *testing.T) {
 					counts["membership_changes_between_queries"]++
 				}
 				synctest.Wait()
-				// ground truth: the node's own member list at quiescence
-				members := nd.S.Members()
-				elig := map[string]string{} // addr -> name
-				why := map[string]string{}  // addr -> reason for ineligibility
-				cat := map[string]string{}  // addr -> reason category (violation key)
-				for _, m := range members {
-					a := net.JoinHostPort(m.Addr.String(), strconv.Itoa(int(m.Port)))
-					counts["member_views_"+m.Status.String()]++
-					if m.ProtocolMax < 5 {
-						counts["member_views_protocol_max_below_5"]++
+				// ground truth: the node's own member list at quiescence; the protocol versions of the fake
+				// members are what they announced last
+				truth := func() (members []serf.Member, elig, why, cat map[string]string) {
+					members = nd.S.Members()
+					elig = map[string]string{} // addr -> name
+					why = map[string]string{}  // addr -> reason for ineligibility
+					cat = map[string]string{}  // addr -> reason category (violation key)
+					announced := map[string]uint8{}
+					for _, f := range fakes {
+						announced[f.name] = f.pmax
 					}
-					switch {
-					case m.Name == "n1":
-						why[a], cat[a] = "the node itself", "self"
-					case m.Status != serf.StatusAlive:
-						why[a], cat[a] = "member "+m.Name+" is "+m.Status.String(), "status-"+m.Status.String()
-					case m.ProtocolMax < 5:
-						why[a], cat[a] = fmt.Sprintf("member %s has protocol max %d", m.Name, m.ProtocolMax), "old-protocol"
-					default:
-						elig[a] = m.Name
+					for _, m := range members {
+						a := net.JoinHostPort(m.Addr.String(), strconv.Itoa(int(m.Port)))
+						counts["member_views_"+m.Status.String()]++
+						pmax := m.ProtocolMax
+						if v, ok := announced[m.Name]; ok {
+							pmax = v
+						}
+						if pmax < 5 {
+							counts["member_views_protocol_max_below_5"]++
+						}
+						switch {
+						case m.Name == "n1":
+							why[a], cat[a] = "the node itself", "self"
+						case m.Status != serf.StatusAlive:
+							why[a], cat[a] = "member "+m.Name+" is "+m.Status.String(), "status-"+m.Status.String()
+						case pmax < 5:
+							why[a], cat[a] = fmt.Sprintf("member %s announced protocol max %d", m.Name, pmax), "old-protocol"
+						default:
+							elig[a] = m.Name
+						}
 					}
+					for a, n := range oldAddrs {
+						if _, ok := elig[a]; !ok {
+							why[a], cat[a] = "former address of member "+n, "former-address"
+						}
+					}
+					return
 				}
-				for a, n := range oldAddrs {
-					if _, ok := elig[a]; !ok {
-						why[a], cat[a] = "former address of member "+n, "former-address"
-					}
-				}
+				members, elig, why, cat := truth()
 				maxK := len(members) + 2
 				k := rng.Intn(maxK + 1)
 				if rng.Intn(6) == 0 {
@@ -251,6 +266,7 @@ func TestC35(t *testing.T) {
 				}
 				synctest.Wait()
 				var respErr error
+				rMembers, rElig, rWhy, rCat := members, elig, why, cat // the truth when the reply is sent
 				if respond {
 					evs := nd.Events()
 					var q *serf.Query
@@ -263,6 +279,23 @@ func TestC35(t *testing.T) {
 					if q == nil {
 						counts["query_not_delivered"]++
 					} else {
+						if len(fakes) > 0 && rng.Intn(3) == 0 {
+							// the application takes its time: the membership changes between the query's arrival
+							// and the reply, and the reply goes by what the node knows when it is sent
+							f := fakes[rng.Intn(len(fakes))]
+							switch rng.Intn(3) {
+							case 0:
+								nd.NotifyLeave(cluster.FakeNode(f.name, f.ip, f.port, meta))
+							case 1:
+								f.pmax = []uint8{5, 5, 5, 4, 3, 2}[rng.Intn(6)]
+								join(f.name, f.ip, f.port, f.pmax)
+							default:
+								leaveIntent(f.name)
+							}
+							synctest.Wait()
+							counts["membership_changes_between_arrival_and_reply"]++
+							rMembers, rElig, rWhy, rCat = truth()
+						}
 						respErr = q.Respond([]byte(fmt.Sprintf("answer-%d", qi)))
 						synctest.Wait()
 					}
@@ -276,6 +309,10 @@ func TestC35(t *testing.T) {
 						continue
 					}
 					kindName := map[bool]string{true: "ack", false: "response"}[isAck]
+					members, elig, why, cat := members, elig, why, cat
+					if !isAck {
+						members, elig, why, cat = rMembers, rElig, rWhy, rCat
+					}
 					var relays []c35Pkt
 					direct := 0
 					var directBytes []byte
@@ -376,7 +413,7 @@ func TestC35(t *testing.T) {
 			r.Inconclusive(fmt.Sprintf("%s = %d: too few observations", k, r.Counter(k)))
 		}
 	}
-	r.Finish("member lists of 1-4 alive puppets plus 0-6 fake members (alive with protocol max 5, alive with protocol max 2-4, failed, leaving, left, moved to a new address; churn between queries) around one real node; queries with relay factor 0..members+2 (and 200/255) from a puppet; acks and Respond replies; every packet leaving the node parsed. Asserted: relay copies <= k, distinct peers, only to alive members with protocol max >= 5 other than the node (ground truth = the node's own Members() at quiescence), none when members < k+1, envelope addressed to the origin and identical to the direct reply. Non-trivial = relay factor > 0; distinct by (k, members, eligible, ineligible, reply kind, copies seen)",
+	r.Finish("member lists of 1-4 alive puppets plus 0-6 fake members (alive with protocol max 5, alive with protocol max 2-4, failed, leaving, left, moved to a new address; churn between queries) around one real node; queries with relay factor 0..members+2 (and 200/255) from a puppet; acks and Respond replies; every packet leaving the node parsed. Asserted: relay copies <= k, distinct peers, only to alive members with protocol max >= 5 other than the node (ground truth = the node's own Members() at quiescence - for a Respond reply as of the moment it is sent, a third of them after a membership change since the query arrived - with the protocol version each fake member announced last), none when members < k+1, envelope addressed to the origin and identical to the direct reply. Non-trivial = relay factor > 0; distinct by (k, members, eligible, ineligible, reply kind, copies seen)",
 		r.N(600, 1500),
 		"relay selection is random with bounded probing: only upper bounds and eligibility are asserted, never 'exactly k'",
 		"eligibility is judged against the node's own member list (status, protocol max) read at quiescence immediately before the query")
